@@ -219,6 +219,8 @@ class ImageFP:
 
     def __init__(self, out):
         self.chunks = sorted(out.chunks, key=lambda c: c[0])
+        # metadata written at SYMBOLIC positions (e.g. the UDF anchor in the last sector of a symbolic-size image)
+        self.sym_chunks = [(p, d) for (p, d) in out.spans if not isinstance(d, Span)]
         self.pos = 0
         self.n = out.end
         self.span_reads = []
@@ -238,10 +240,27 @@ class ImageFP:
     def read(self, n=-1):
         start = self.pos
         end = start + n
+        if not (concrete(start) and concrete(end)) and concrete(n) and n <= 4096:
+            # metadata-sized probe at a symbolic position (UDF anchors at N-1 / N-257, continuation areas ...): enumerate the
+            # (few) possible sector positions -- CrossHair forks over the values; sound because every value is explored
+            from crosshair.core import realize
+            start = realize(start)
+            end = start + n
         if not (concrete(start) and concrete(end)):
             self.pos = end
+            for (p, d) in self.sym_chunks:
+                if start == p and concrete(n):       # decided by the solver; infeasible alternatives are pruned
+                    return d[:n] if n <= len(d) else d + b'\x00' * (n - len(d))
             self.span_reads.append((start, n))
+            if concrete(n) and n <= 4096:
+                # a metadata-sized probe into a region holding file data (e.g. the UDF anchor probe at N-256): file CONTENT is
+                # opaque to every layout property; it is concretised to zero bytes here (recorded assumption)
+                return b'\x00' * n
             return Span(n, start, 'image')
+        for (p, d) in self.sym_chunks:
+            if start == p:
+                self.pos = end
+                return d[:n] if n <= len(d) else d + b'\x00' * (n - len(d))
         parts = []
         cur = start
         for (p, d) in self.chunks:
